@@ -245,6 +245,40 @@ def run(ck: Check):
             ck.disagree("a zero-padded Walsh convolution in eval mode differs from the Boolean function given by the signs of its form (padding cells are Boolean 0)",
                         {"padding": pad, "stride": stride, "depth": depth, "row": prow[pj], "differing_rows": sum(1 for a_, b_ in zip(pgot, pexp) if a_ != b_)},
                         expected=pexp[pj], observed=pgot[pj], signature={"layer": "conv", "what": "eval-padded"})
+    # ---- a model that MIXES parametrisations: every consumer must decide per layer how to discretise (a raw layer in front of a Walsh one,
+    # and the other way round); compiled vs eval on every input
+    for order in ("raw-then-walsh", "walsh-then-raw"):
+        for kindm in ("conv", "dense"):
+            torch.manual_seed(ck.seed + 19)
+            p1, p2 = ("raw", "walsh") if order == "raw-then-walsh" else ("walsh", "raw")
+            if kindm == "conv":
+                mm = torch.nn.Sequential(
+                    LogicConv2d(in_dim=(3, 3), device="cpu", channels=1, num_kernels=2, tree_depth=1, receptive_field_size=2, parametrization=p1, weight_init="random"),
+                    LogicConv2d(in_dim=(2, 2), device="cpu", channels=2, num_kernels=3, tree_depth=1, receptive_field_size=2, parametrization=p2, weight_init="random"),
+                    torch.nn.Flatten(), GroupSum(3, device="cpu"))
+                mrows, mshape = nets.all_rows(9), (1, 3, 3)
+            else:
+                from torchlogix.layers import LogicDense as _LDm
+                mm = torch.nn.Sequential(_LDm(6, 12, device="cpu", parametrization=p1, weight_init="random"),
+                                         _LDm(12, 9, device="cpu", parametrization=p2, weight_init="random"), GroupSum(3, device="cpu"))
+                mrows, mshape = nets.all_rows(6), (6,)
+            ck.case({"layer": kindm, "mixed": order}, nontrivial=True, kind="mixed-parametrisation")
+            mm.eval()
+            with torch.no_grad():
+                mexp = [[int(round(v)) for v in r] for r in mm(torch.tensor(mrows, dtype=torch.float32).reshape(-1, *mshape)).tolist()]
+            try:
+                mnet = compiled.build(mm, 16)
+                compiled.compile_net(mnet)
+                mgot = [[int(v) for v in r] for r in compiled.forward(mnet, np.array(mrows, dtype=bool).reshape(-1, *mshape).tolist())]
+            except Exception as e:
+                ck.disagree("a model mixing raw and Walsh layers cannot be compiled", {"layer": kindm, "mixed": order}, observed=repr(e)[:200],
+                            signature={"layer": kindm, "what": "compiled-mixed", "kind": "error"})
+                continue
+            if mgot != mexp:
+                mj = next(i for i in range(len(mrows)) if mgot[i] != mexp[i])
+                ck.disagree("a model mixing raw and Walsh layers compiles to a different function than its eval forward (the discretisation was not chosen per layer)",
+                            {"layer": kindm, "mixed": order, "row": mrows[mj], "differing_rows": sum(1 for a_, b_ in zip(mgot, mexp) if a_ != b_)},
+                            expected=mexp[mj], observed=mgot[mj], signature={"layer": kindm, "what": "compiled-mixed"})
     # ---- half-precision parameters (F20): the compiler, the eval forward and a float32 copy of the same stored coefficients agree
     for dt in (torch.bfloat16, torch.float16):
         torch.manual_seed(ck.seed + 11)
